@@ -47,6 +47,11 @@ CHECKS = {
          "Trusted: harness/src/props/numref.rs + bigint.rs (self-tested), ryu cross-checked with core::fmt, str::parse verified by an exact rational predicate. Two open findings are excluded by construction and counted: toString(radix != 10) of non-integers, JSON.stringify number notation for |x| >= 2^53 and 1e-6 <= |x| < 1e-5. The check demands correct rounding beyond 20 significant digits, where ECMA-262 would tolerate the neighbour.",
          "exhaustive enumeration of structured families + property-based random generation (proptest choice tape) against a reference model; node as secondary oracle on samples",
          "§10 C15"),
+ "C13": ("exploration",
+         "Model-based testing of the collector through the public Heap/Guard/Gc API under AddressSanitizer: (1) breadth-first enumeration over abstract model states (<=3 live guards, <=4 objects, <=2 handles/links per object) from the empty heap (depth 5 quick / 7 thorough) and four start configurations (depth 4-6 quick / 5-8 thorough), every (state, op) pair executed as its own history on a fresh heap; (2) seeded random histories of up to 10^4 operations with thousands of objects crossing the 256-slot chunk and 16-entry guard-pool boundaries. After every operation the payload and links of every model-reachable object are compared, after every collection stats().live_objects == |reachable| and pooled+live==total, and a slot may be handed out again only if its previous tenant was unreachable. Exhaustive inside the bound modulo abstract-state de-duplication, sampled beyond it.",
+         "Trusted: the reference model in harness/src/props/c13.rs, AddressSanitizer + debug assertions as memory-safety monitor. Stale handles are only dropped, cloned, guarded and unguarded (never borrowed); borrowing a handle after the heap was dropped is outside the domain.",
+         "exhaustive bounded enumeration + property-based random generation (proptest choice tape) against a reference model, AddressSanitizer build",
+         "§10 C13"),
 }
 
 NOT_YET = {}
@@ -74,7 +79,7 @@ def main():
             na.append({"property_id": pid, "reason": NOT_YET.get(pid, "check not built yet in this session (planned, see DESIGN.md §12); not claimed until its check exists and is quiet on the unchanged tree")})
     m = {
         "version": 1,
-        "setup_cmd": "cd /verif/harness && CARGO_NET_OFFLINE=true cargo build --release --offline",
+        "setup_cmd": "cd /verif/harness && CARGO_NET_OFFLINE=true cargo build --release --offline && RUSTFLAGS=-Zsanitizer=address CARGO_NET_OFFLINE=true cargo +nightly build --release --offline --target x86_64-unknown-linux-gnu --target-dir /verif/target-asan",
         "hooks": {
             "guard": "verif-hooks",
             "enable": "cargo feature `verif-hooks` of the tsrun crate; the harness (/verif/harness) depends on /repo by path with features [verif-hooks, c-api], so every check rebuilds /repo's working tree with hooks on",
